@@ -228,9 +228,14 @@ func build(routes []string, methods []string, order []int) (r *rig, ok bool) {
 	return r, true
 }
 
-func (r *rig) lookup(method, path string) obs {
+func (r *rig) lookup(method, path string) obs { return r.lookupProto(method, path, "") }
+
+func (r *rig) lookupProto(method, path, proto string) obs {
 	ctx := r.ctx
 	ctx.Reset()
+	if proto != "" {
+		ctx.Request.Header.SetProtocol(proto)
+	}
 	ctx.Request.Header.SetMethod(method)
 	ctx.Request.SetRequestURI(path)
 	ctx.Request.Header.SetHost("h")
@@ -269,6 +274,7 @@ func permutations(n int) [][]int {
 }
 
 type setStats struct {
+	ctl int64
 	lookups, nontrivial, ambiguous int64
 	skipped                        bool
 }
@@ -357,6 +363,34 @@ func checkSet(routes, methods []string, orders [][]int, paths []string, reqMetho
 			}
 			if first.full != routes[want] {
 				return fmt.Sprintf("%s %s matched %q: FullPath()=%q", m, p, routes[want], first.full), st
+			}
+		}
+	}
+	// Targets with a control byte (hertz refuses to parse those): whatever the answer, the handler of a
+	// route may only run if its pattern matches the path that was asked for. HTTP/1.0 has no Host rule to
+	// catch the unparsed target.
+	for k, p := range paths {
+		if k >= 8 || rawMode {
+			break
+		}
+		for _, ctl := range []string{"\x01", "\x7f", "\x1f"} {
+			for _, proto := range []string{"HTTP/1.1", "HTTP/1.0"} {
+				for _, q := range []string{p + ctl, strings.TrimSuffix(p, "/") + "/" + ctl + "x"} {
+					m := reqMethods[0]
+					rt := refs[m]
+					st.ctl++
+					got := rigs[0].lookupProto(m, q, proto)
+					if got.route < 0 {
+						continue
+					}
+					if rt != nil {
+						a, b := rt.match(q, false), rt.match(q, true)
+						if (a.route >= 0 && idx[m][a.route] == got.route) || (b.route >= 0 && idx[m][b.route] == got.route) {
+							continue
+						}
+					}
+					return fmt.Sprintf("%s %q %s: the handler of %q ran (params %s) for a target no pattern of which matches", m, q, proto, routes[got.route], got.params), st
+				}
 			}
 		}
 	}
@@ -668,6 +702,7 @@ func TestC06Random(t *testing.T) {
 		rec.Class("lookups", st.lookups)
 		rec.Class("lookups-with-priority-decision", st.nontrivial)
 		rec.Class("lookups-ambiguous-empty-param", st.ambiguous)
+		rec.Class("lookups-target-with-control-byte", st.ctl)
 		if msg != "" {
 			t.Fatalf("routes %v methods %v: %s", routes, methods, msg)
 		}
